@@ -203,8 +203,11 @@ def _cut_for(eng, s: ast.For, st: State, view: IterView):
     gh = {idx_name: IntV(i), "_n": IntV(n)}
     for inv in lc.invariants:
         sh = sh.assume(eng.eval_contract_expr(inv, sh, gh, where="assume"))
-    for hint in lc.hints:
-        sh = sh.assume(eng.eval_contract_expr(hint, sh, gh, where="hint"))
+    for hk, hint in enumerate(lc.hints):
+        # a hint is an intermediate lemma at the loop head: proved from the invariants (obligation), then assumed
+        hf = eng.eval_contract_expr(hint, sh, gh, where="hint")
+        eng.oblige("hint", f"{where}.{hk}", sh, hf, s.lineno)
+        sh = sh.assume(hf)
     sh.ghost = {**sh.ghost, "_loopidx_" + idx_name: i}
     for a in eng.assign(s.target, view.item(i), sh):
         if a.kind != "normal":
